@@ -6,6 +6,13 @@ CLAIMED = {
  "C03": ("exhaustive TLC over all chunkings/update forms at scaled constants + trace validation of real call histories", "5 C03"),
  "C12": ("exhaustive TLC with size hint / reset (POISON semantics) at scaled constants + trace validation of histories with declarations and resets", "5 C12"),
  "C13": ("TLC lemma ZerosState at real constants + trace validation of hook-positioned generators at every block size border up to 192 GiB", "5 C13"),
+
+ "C02": ("declarative fuzzy_compare in TLA+ (Compare.tla); laws + bit-parallel kernels model-checked on complete small domains; trace validation of every comparison entry point on recorded pairs", "5 C02"),
+ "C08": ("exhaustive TLC: Hyyro recurrence (with column invariant) = textbook LCS DP for all string pairs up to the word width; trace validation of real edit_distance calls incl. exhaustive small alphabets", "5 C08"),
+ "C09": ("exhaustive TLC: backward scan machine = 'share WIN consecutive symbols' for all pairs; trace validation with a 7-gram planted at every offset pair", "5 C09"),
+ "C10": ("score / candidate / window laws as TLC-checked theorems on complete small domains; trace validation of scores, candidates and windows on recorded pairs with the laws re-checked on recorded values", "5 C10"),
+ "C17": ("exhaustive TLC over all re-initialisation histories of a scaled position array; trace validation of real init_from/From/clear histories incl. all 64 masks", "5 C17"),
+ "C20": ("complete finite domains dumped from the implementation and judged row by row by TLC against the TLA+ definitions", "5 C20"),
 }
 LEVEL_TEXT = "model_checking: TLC explores the scaled design exhaustively (every input, history and size up to the scaled limit) and validates every recorded step of real executions against the same specification at real constants; results at real constants cover the executions explored, not all inputs"
 NOTE = "trusted: SANY/TLC 1.8.0 + CommunityModules, my transcription of the property into TLA+ (cross-checked by L1=L0, L2 refines L1), the harness recorders (serialisation only), rustc/cargo"
